@@ -50,6 +50,8 @@ type Opts struct {
 	TwinReferrers          bool // with TwinNames: a class of the package of one of two namesakes refers to its package mate (audit_c02.go) (C02)
 	InterfaceBodies        bool // methods of interfaces may be `default` or `static` methods with a body (audit_c02.go) (C02)
 	FieldChainCalls        bool // calls on a static field of a library class: System.out.println(..), System.err.printf(..) (audit_c02.go) (C02)
+	NamesakeImports        bool // with TwinNames and WildcardProjectImports: a simple name that two or more classes bear may be met together with imports that mention a namesake: the class itself or a class of the own package next to an on-demand import of a namesake's package, a single-type import that hides the namesake of the own package or of an on-demand import, a class reached through an on-demand import only whose namesake lives in a package not imported; namesakes are more frequent (namesake_imports.go) (C02)
+	CallsAfterScopes       bool // right after a loop, branch, switch, try or synchronized statement, now and then a call on a local variable of class type declared before it (namesake_imports.go) (C02)
 }
 
 // Ann is an annotation as the model records it.
@@ -165,6 +167,8 @@ type gen struct {
 	sigs    []classSig
 	reuse   []string    // pool of reusable variable names (NameReuse)
 	mustRef map[int]int // unit -> unit it must refer to through a wildcard import (DupNames)
+
+	prefer map[int]map[string]int // unit -> simple name -> the class of that name the unit refers to (Opts.NamesakeImports)
 }
 
 var pkgPool = []string{"com.acme", "com.acme.core", "org.demo", "app", "com.acme.web.api"}
@@ -210,6 +214,10 @@ func GenProject(t *rapid.T, o Opts) Project {
 	nPk := rapid.IntRange(1, 3).Draw(t, "nPkgs")
 	if o.DupNames {
 		nPk = 3
+	}
+	if o.NamesakeImports && o.TwinNames {
+		// three packages more often: a file, the class it names and a namesake may live in three of them
+		nPk = max(nPk, rapid.IntRange(1, 3).Draw(t, "nPkgsAtLeast"))
 	}
 	pkgs := append([]string(nil), pkgPool[:0]...)
 	start := rapid.IntRange(0, len(pkgPool)-1).Draw(t, "pkgStart")
@@ -260,6 +268,9 @@ func GenProject(t *rapid.T, o Opts) Project {
 					s.name = g.sigs[j].name
 				}
 			}
+		}
+		if o.NamesakeImports && o.TwinNames {
+			g.namesakeBoost(&s, layout)
 		}
 		if o.TwinNames {
 			g.twin(&s, layout)
@@ -389,6 +400,9 @@ func GenProject(t *rapid.T, o Opts) Project {
 	if o.TwinReferrers {
 		g.twinReferrers()
 	}
+	if o.NamesakeImports && o.TwinNames {
+		g.namesakeReferrers(pkgs, layout)
+	}
 	for i := range g.sigs {
 		text, truth := g.unit(i)
 		p.Files = append(p.Files, File{Path: g.sigs[i].path, Text: text})
@@ -496,6 +510,8 @@ type unitCtx struct {
 	superIdx int // index of the project superclass, -1 if none
 	foreign  []foreignCallee // methods of other classes that an unqualified call may name (Opts.UnqualifiedForeign)
 	curRet   string          // return type of the method being written, "" in a constructor (Opts.ReturnCalls)
+
+	ns namesakeState // Opts.NamesakeImports (namesake_imports.go)
 }
 
 func (g *gen) unit(i int) (string, UnitTruth) {
@@ -528,7 +544,7 @@ func (g *gen) unit(i int) (string, UnitTruth) {
 			chosen = append(chosen, ref)
 			sort.Ints(chosen)
 		}
-		if g.o.TwinNames && (g.o.CaseTwinNames || g.o.TwinReferrers) {
+		if g.o.TwinNames && (g.o.CaseTwinNames || g.o.TwinReferrers || g.o.NamesakeImports) {
 			chosen = g.keepRefUnambiguous(i, ref, chosen)
 		}
 	}
@@ -603,8 +619,11 @@ func (g *gen) unit(i int) (string, UnitTruth) {
 			if g.o.WildcardProjectImports {
 				// 0: the single-type import (plain); 1: only a wildcard import of the package; 2: both
 				form := rapid.IntRange(0, 2).Draw(t, "projectImportForm")
-				if g.o.TwinNames && g.hasNamesake(c) {
+				if g.o.TwinNames && g.hasNamesake(c) && !g.o.NamesakeImports {
 					form = 0 // a namesake is only reached through its single-type import
+				}
+				if g.o.NamesakeImports && form >= 1 {
+					form = u.onDemandForm(c, form)
 				}
 				if form >= 1 {
 					dup := false
@@ -627,6 +646,11 @@ func (g *gen) unit(i int) (string, UnitTruth) {
 			u.imports[g.sigs[c].full()] = true
 		}
 	}
+	if g.o.NamesakeImports {
+		for _, pkg := range u.namesakeOnDemandImports(chosen) {
+			imps = append(imps, impLine{text: pkg, wildcard: true, verdict: "keep", why: "wildcard"})
+		}
+	}
 	for _, xi := range exts {
 		imps = append(imps, impLine{text: externals[xi].imp})
 		u.imports[externals[xi].imp] = true
@@ -634,6 +658,11 @@ func (g *gen) unit(i int) (string, UnitTruth) {
 	if g.o.UnqualifiedForeign {
 		for _, si := range u.staticImports(chosen) {
 			imps = append(imps, impLine{text: si.text, static: true, wildcard: si.wildcard, verdict: "keep", why: "static import of a project class"})
+		}
+	}
+	if g.o.NamesakeImports {
+		for _, cls := range u.namesakeStaticImports(chosen) {
+			imps = append(imps, impLine{text: cls, static: true, wildcard: true, verdict: "keep", why: "static import of a project class"})
 		}
 	}
 	if g.o.WildcardProjectImports && rapid.IntRange(0, 4).Draw(t, "unrelatedWildcard") == 4 {
